@@ -3,25 +3,29 @@ random larger sequences go through the real code; TLC judges (input view, values
 import json
 
 from harness import core, project as P
-from harness.common import pmap, build, via
+from harness.common import pmap, build, via4, canonical_in, perturb_returned_defaults
 from harness.drive_quantise import random_score
 
 core.import_scoda()
-from scoda.misc.util import get_default_note_values  # noqa: E402
+
+# the defaults that follow from the settings (PPQN 24: whole..32nd note bounds, triplets, one dotting), spelled out
+DEFAULT_VALUES = [24, 12, 6, 16, 8, 4, 36, 18, 9]
 
 
 def execute(case):
     idx, score, values, noext = case
-    line = {"values": values, "noExtend": noext, "in": [], "out": [], "raised": "",
+    line = {"values": values, "noExtend": noext, "in": [], "out": [], "outRel": [], "raised": "",
             "case": {"score": score, "values": values, "noExtend": noext}}
     try:
-        seq = build(score, via(idx))
-        line["in"] = P.raw_abs(seq)
-        if values == get_default_note_values() and idx % 2:
+        seq = build(score, via4(idx))
+        line["in"] = canonical_in(seq, score)
+        perturb_returned_defaults()
+        if values == list(DEFAULT_VALUES) and idx % 2:
             seq.quantise_note_lengths(do_not_extend=noext)     # the default values through the default argument
         else:
             seq.quantise_note_lengths(list(values), do_not_extend=noext)
         line["out"] = P.raw_abs(seq)
+        line["outRel"] = P.raw_rel(seq)            # both views are read after the operation: they must agree
     except Exception as e:
         line["raised"] = f"{type(e).__name__}: {e}"
     return line
@@ -42,7 +46,7 @@ def run(ctx):
                     cases.append((len(cases), sc, vl, ne))
         if not ctx.thorough:
             cases = [c for c in cases if (c[0] // 14) % 5 == 0 or (c[0] % 14) in ((c[0] // 14) % 14, (c[0] // 14 + 7) % 14)]
-        vls = g["valuelists"] + [get_default_note_values(), [3, 9], [1], [24, 12, 6]]
+        vls = g["valuelists"] + [list(DEFAULT_VALUES), [3, 9], [1], [24, 12, 6]]
         for _ in range(60000 if ctx.thorough else 8000):
             sc = random_score(ctx.rng, 12 if ctx.rng.random() < .5 else 5, ctx.rng.choice([20, 60, 200]),
                               pitches=(60, 61) if ctx.rng.random() < .7 else (60,))
@@ -51,7 +55,7 @@ def run(ctx):
         from harness import fixtures
         for kind in ("raw", "quantised"):
             for sc in fixtures.slices(kind):
-                for vl in (get_default_note_values(), [12, 24], [6]):
+                for vl in (list(DEFAULT_VALUES), [12, 24], [6]):
                     for ne in (False, True):
                         cases.append((len(cases), {k: sc[k] for k in ("notes", "extras", "dur")}, vl, ne))
     obs = pmap(execute, cases, chunk=400)
